@@ -276,29 +276,24 @@ def run(check):
   # ------------------------------------------------------------------ batches
   r_b = check.rule('R-C15-batch', 2, 'batches are popped from the left, at most MAX_DATAPOINTS_PER_MESSAGE, never merged or reordered')
   tq = cx.fn('carbon.client', 'CarbonClientFactory.takeSomeFromQueue')
-  gens = [f for f in tq.module.all_functions() if f.parent_fn is tq and not isinstance(f.node, ast.Lambda)]
-  body = gens[0] if gens else tq
-  loops = [n for n in walk_no_nested(body.node, include_self=False) if isinstance(n, (ast.For, ast.While))]
-  bounded = [lp for lp in loops if isinstance(lp, ast.For) and isinstance(lp.iter, ast.Call) and dotted(lp.iter.func) in ('range', 'xrange')
-             and lp.iter.args and 'MAX_DATAPOINTS_PER_MESSAGE' in unparse(lp.iter.args[-1]) and len(lp.iter.args) == 1]
-  if not bounded:
-    bounded = _bounded_while(cx, body, loops)
-  if bounded:
-    r_b.ok('at most MAX_DATAPOINTS_PER_MESSAGE items per batch', body.loc(bounded[0]))
+  from ..clientmodel import BatchShape
+  bs = BatchShape(cx, tq)
+  body = bs.region
+  if bs.bound is None:
+    r_b.ok('at most MAX_DATAPOINTS_PER_MESSAGE items per batch', body.loc(bs.loop) if bs.loop is not None else tq.loc())
   else:
-    r_b.violate('batch size', body, loops[0] if loops else None, 'takeSomeFromQueue does not take at most '
-                'settings.MAX_DATAPOINTS_PER_MESSAGE items per call', construct='for _ in range(settings.MAX_DATAPOINTS_PER_MESSAGE)')
-  pops = [c for c in walk_no_nested(body.node, include_self=False) if isinstance(c, ast.Call) and isinstance(c.func, ast.Attribute)
-          and c.func.attr in ('popleft', 'pop', 'popitem')]
-  if pops and all(c.func.attr == 'popleft' for c in pops):
-    r_b.ok('items taken with popleft (arrival order)', body.loc(pops[0]))
+    r_b.violate('batch size', body, bs.bound[0], bs.bound[1], construct='for _ in range(settings.MAX_DATAPOINTS_PER_MESSAGE)')
+  if not bs.problems:
+    r_b.ok('items taken with popleft (arrival order), each put into the batch once', tq.loc())
   else:
-    r_b.violate('batch order', body, pops[0] if pops else None, 'the batch is not built by popleft() from the head of the queue',
+    r_b.violate('batch order', tq, bs.problems[0][0], 'the batch is not built by popleft() from the head of the queue: %s' % bs.problems[0][1],
                 construct='self.queue.popleft()')
   # an empty queue ends the batch quietly
-  hs = [h for h in ast.walk(body.node) if isinstance(h, ast.ExceptHandler)]
-  if hs and all('IndexError' in (unparse(h.type) if h.type is not None else '') for h in hs):
-    r_b.ok('an empty queue ends the batch (IndexError -> stop)', body.loc(hs[0]))
+  if bs.quiet_empty:
+    r_b.ok('an empty queue ends the batch (%s)' % bs.quiet_empty, tq.loc())
+  elif bs.bound is None and not bs.problems:
+    r_b.violate('empty queue', tq, bs.loop, 'popleft() on an empty queue raises IndexError out of takeSomeFromQueue: the batch taken so far '
+                'has left the queue and is lost', construct='except IndexError')
 
 
 def _bounded_while(cx, fn, loops):
